@@ -76,10 +76,18 @@ def candidates(param):
     return None  # Decimal, Time, Duration, Enum, List: not executable here
 
 
-def instantiations(op: Operator, max_varargs=3):
+MIXED_TYVAR = [("int64", "float64"), ("float64", "int64"), ("int8", "int64"), ("int64", "uint8"), ("int32", "float32"), ("float32", "float64")]
+
+
+def instantiations(op: Operator, max_varargs=3, implicit=False):
     """-> list of (signature index, [(kind, typename)]), kind in {'col','lit'};
     every declared parameter is varied over its candidates while the others stay at their
-    first (canonical) candidate; all occurrences of the type variable S move together."""
+    first (canonical) candidate; all occurrences of the type variable S move together.
+
+    implicit=True adds the instantiations that rely on an implicit conversion: an integer
+    argument for every Float parameter, and - for signatures with two or more occurrences
+    of the type variable - one occurrence of a different (convertible) type than the
+    others."""
     out = []
     seen = set()
     for si, sig in enumerate(op.signatures):
@@ -102,6 +110,18 @@ def instantiations(op: Operator, max_varargs=3):
                     else:
                         v[i] = alt
                     combos.append(v)
+            if implicit:
+                for i, p in enumerate(params):
+                    if type(_types.without_const(p)) is Float:
+                        for alt in ("int64", "int8", "uint16"):
+                            v = list(base)
+                            v[i] = alt
+                            combos.append(v)
+                tv_pos = [i for i, tv in enumerate(tyvar) if tv]
+                if len(tv_pos) >= 2:
+                    for i in tv_pos:
+                        for one, rest in MIXED_TYVAR:
+                            combos.append([(one if j == i else rest) if tyvar[j] else b for j, b in enumerate(base)])
             for v in combos:
                 key = (tuple(kinds), tuple(v))
                 if key in seen:
@@ -111,12 +131,55 @@ def instantiations(op: Operator, max_varargs=3):
     return out
 
 
+def const_variants(op: Operator):
+    """instantiations of ``op`` in which one constant parameter is not given as a Python
+    literal but as a constant column ('ccol': a column created by ``mutate(cc_<t>=<literal>)``,
+    its type is const) or as a constant expression ('cexpr': an operator applied to
+    literals).  Both are accepted by the type checker wherever a literal is."""
+    out, seen = [], set()
+    for si, args in instantiations(op):
+        for i, (kind, t) in enumerate(args):
+            if kind != "lit":
+                continue
+            for alt in ("ccol", "cexpr"):
+                if alt == "cexpr" and cexpr(t) is None:
+                    continue
+                v = list(args)
+                v[i] = (alt, t)
+                key = tuple(v)
+                if key not in seen:
+                    seen.add(key)
+                    out.append((si, v))
+    return out
+
+
+def cexpr(t):
+    if t in INT_T:
+        return pdt.lit(LITERALS[t]) + 0
+    if t in FLOAT_T:
+        return pdt.lit(LITERALS[t]) * 1.0
+    if t == "str":
+        return pdt.lit(LITERALS[t]) + ""
+    if t == "bool":
+        return pdt.lit(True) & True
+    return None
+
+
+def const_table(tbl):
+    """``tbl`` with one constant column cc_<t> per type"""
+    return tbl >> pdt.mutate(**{f"cc_{t}": LITERALS[t] for t in ALL_T})
+
+
 def build(op: Operator, args, tbl, *, ftype_ctx=True):
     """real ColFn for ``op`` with the given argument specs on table ``tbl``"""
     real = []
     for kind, t in args:
         if kind == "col":
             real.append(tbl[f"c_{t}"])
+        elif kind == "ccol":
+            real.append(tbl[f"cc_{t}"])
+        elif kind == "cexpr":
+            real.append(cexpr(t))
         else:
             v = LITERALS[t]
             real.append(v)
